@@ -131,6 +131,31 @@ PROPS["C08"] = dict(
                  "log.Fatalf / os.Exit in the engine terminates the shard process; the journal identifies the case and it is re-run alone to confirm"],
 )
 
+_QUERY_COMMON = dict(
+    simulated=True,
+    level="exploration",
+    instrument=ENGINE_FILES,
+    budget=dict(quick=40, thorough=900),
+    components_real=ENGINE_REAL,
+    components_stub=["simulated storage driver, fault-free (gate, pacing, permuted emission of unpaged lookups)", "seeded scheduler in a synctest bubble",
+                     "reference evaluator (x/harness/ref.go) as oracle"],
+    assumptions=["the input dimension (graph contents x query) is seeded generation, not enumeration; the simulator owns completion order and pace of driver calls, emission order, fan-out width (GOMAXPROCS knob), channel sizes and map iteration order",
+                 "queries whose answer the property statement leaves open are executed but not judged (a binding introduced by an OPTIONAL clause used again, bounds taken from bindings, sum over mixed kinds)"],
+)
+PROPS["C03"] = dict(_QUERY_COMMON,
+    rule="graph contents over the vocabulary (immutable and temporal predicates sharing identifiers, all literal kinds, predicate-valued objects, one instant in two zones) partitioned over 1-3 "
+         "disjoint graphs; SELECTs of the conjunctive fragment: 1-4 clauses, constants or bindings in every position, repeated bindings within and across clauses and across kinds, "
+         "anchor bindings, clause bounds, global BEFORE/AFTER/BETWEEN, AS/ID/TYPE/AT extractions, 1-3 FROM graphs; executed through server.BQL inside the simulator under a drawn "
+         "schedule / pacing / emission order / chanSize / processor count / memoization; result compared as a multiset of canonical rows with the reference evaluator (as sets of distinct "
+         "rows when a clause has an un-named anchor range). Non-trivial: non-empty reference result; distinct = distinct (query text, data)")
+PROPS["C10"] = dict(_QUERY_COMMON,
+    rule="as C03 with at least one OPTIONAL clause after the first clause (sharing 0, 1 or more bindings with the preceding pattern, fully specified with and without alias, with "
+         "extractions that may not apply, matching nothing, several in sequence); reference = left outer join. Non-trivial: non-empty reference result")
+PROPS["C11"] = dict(_QUERY_COMMON,
+    rule="as C03 with GROUP BY over 1-2 output names (bindings or aliases) and count / count(distinct) / sum projections over columns holding nodes, predicates, literals of several types, "
+         "time anchors and strings, incl. empty patterns and singleton groups; the arrival order of rows at Table.Reduce is owned by the simulator (driver completion order, emission "
+         "permutation, map order). int64 sums compared exactly, float64 sums to 9 significant digits. Non-trivial: non-empty reference result")
+
 # ---------------------------------------------------------------------------
 # Texts for MANIFEST.json (level claimed, trusted base, technique)
 MANIFEST_TEXT = {}
@@ -165,3 +190,16 @@ MANIFEST_TEXT["C08"] = dict(
     text="seeded exploration of statement texts (structured, grammar-derived, mutated, random) executed end to end inside the simulator, with termination, panic and goroutine-leak oracles on every goroutine the engine starts",
     note="trusted base: x/sim scheduler + synctest bubble accounting, instrumenter, simulated driver; inputs are sampled",
     technique="deterministic simulation: server.BQL pipeline as a simulated client over the instrumented engine and a simulated driver; bubble-end goroutine accounting; child-process journal for process-killing failures; shrinking of text and data")
+_q_note = "trusted base: the reference evaluator x/harness/ref.go (nested-loop unification, left join, grouping; written from the property statements and docs/bql.md), canonical value keys, x/sim, simulated driver"
+MANIFEST_TEXT["C03"] = dict(
+    text="seeded exploration of (data, SELECT) pairs executed inside the simulator under drawn schedules and driver behaviours, every result compared with an independent reference evaluator",
+    note=_q_note,
+    technique="deterministic simulation of the real planner over a simulated driver (seeded completion order, pacing, emission order, fan-out width) + refinement against a reference evaluator; shrinking of data, query and knobs")
+MANIFEST_TEXT["C10"] = dict(
+    text="as C03, for patterns with OPTIONAL clauses against a reference left outer join",
+    note=_q_note,
+    technique="deterministic simulation of the real planner over a simulated driver + refinement against a reference left outer join")
+MANIFEST_TEXT["C11"] = dict(
+    text="as C03, for GROUP BY queries; row arrival order at the reducer (the thing its non-total comparator is sensitive to) is decided by the seed",
+    note=_q_note,
+    technique="deterministic simulation of the real planner over a simulated driver (seeded row arrival order) + refinement against reference grouping and aggregation")
